@@ -32,26 +32,26 @@ type c09Event struct {
 }
 
 type c09Worker struct {
-	id     int
-	gid    int64
-	resume chan struct{}
-	ops    []string
-	state  int32 // 0 running, 1 parked, 2 blocked, 3 done
+	id       int
+	gid      int64
+	resume   chan struct{}
+	ops      []string
+	state    int32 // 0 running, 1 parked, 2 blocked, 3 done
 	parkedAt string
 }
 
 type c09Sched struct {
-	mu      sync.Mutex
-	workers []*c09Worker
-	byGid   map[int64]*c09Worker
-	events  chan c09Event
-	history []c09Event
-	ctx     py.Context
+	mu              sync.Mutex
+	workers         []*c09Worker
+	byGid           map[int64]*c09Worker
+	events          chan c09Event
+	history         []c09Event
+	ctx             py.Context
 	closedCallbacks int32
-	code    *py.Code
-	holdCode *py.Code
-	faultCode *py.Code
-	dir     string
+	code            *py.Code
+	holdCode        *py.Code
+	faultCode       *py.Code
+	dir             string
 }
 
 func curGid() int64 {
@@ -209,12 +209,12 @@ func init() {
 // ---------------------------------------------------------------- one controlled run
 
 type c09Result struct {
-	choices   []int // decisions taken
-	alts      []int // number of alternatives at each decision
-	violation string
-	detail    string
-	history   []c09Event
-	switches  int
+	choices    []int // decisions taken
+	alts       []int // number of alternatives at each decision
+	violation  string
+	detail     string
+	history    []c09Event
+	switches   int
 	nontrivial bool
 }
 
